@@ -1146,3 +1146,44 @@ fn test_flat_compile() -> ExResult<()> {
     }
     Ok(())
 }
+
+// Verification hooks: forwarding wrappers only, no logic. Compiled only with `--cfg exmex_verif`.
+#[cfg(exmex_verif)]
+#[doc(hidden)]
+pub mod verif_hooks {
+    pub use super::detail::{FlatNode, FlatNodeKind, FlatOp};
+    use super::ExprIdxVec;
+    use crate::definitions::N_VARS_ON_STACK;
+    use crate::ExResult;
+    use smallvec::SmallVec;
+    use std::fmt::Debug;
+
+    pub fn prioritized_indices_flat<T: Clone + Debug>(
+        ops: &[FlatOp<T>],
+        nodes: &[FlatNode<T>],
+    ) -> ExprIdxVec {
+        super::detail::prioritized_indices_flat(ops, nodes)
+    }
+    pub fn eval_flatex_cloning<T: Clone + Debug + Default>(
+        vars: &[T],
+        nodes: &[FlatNode<T>],
+        ops: &[FlatOp<T>],
+        prio_indices: &[usize],
+    ) -> ExResult<T> {
+        super::detail::eval_flatex_cloning(vars, nodes, ops, prio_indices)
+    }
+    pub fn eval_flatex_consuming_vars<T: Clone + Debug + Default>(
+        vars: &mut [T],
+        nodes: &[FlatNode<T>],
+        ops: &[FlatOp<T>],
+        prio_indices: &[usize],
+    ) -> ExResult<T> {
+        super::detail::eval_flatex_consuming_vars(vars, nodes, ops, prio_indices)
+    }
+    pub fn var_indices_ordered<T: Default + Clone + Debug>(
+        prio_indices: &[usize],
+        nodes: &[FlatNode<T>],
+    ) -> SmallVec<[usize; N_VARS_ON_STACK]> {
+        super::detail::var_indices_ordered(prio_indices, nodes)
+    }
+}
